@@ -120,6 +120,109 @@ theorem wireOk_bound (v0 : Bool) (evs : List WireEv) :
   | nil => intro w h; exact h
   | cons ev evs ih => intro w h; exact ih _ (wire_step_bound ev h)
 
+/-! ### handleOnePacket: a datagram is credited once -/
+
+def isSent : Op → Bool
+  | .sent _ => true
+  | _ => false
+
+theorem foldl_nosend_disciplined (calls : List Op) (s : St) (h : ∀ op ∈ calls, isSent op = false) :
+    (calls.foldl St.step s).disciplined = s.disciplined := by
+  induction calls generalizing s with
+  | nil => rfl
+  | cons op calls ih =>
+    simp only [List.foldl_cons]
+    rw [ih _ (fun o ho => h o (List.mem_cons_of_mem _ ho))]
+    have := h op (List.mem_cons_self ..)
+    cases op <;> simp_all [St.step, isSent]
+
+theorem walkCalls_nosend (pkts : List Pkt) : ∀ op ∈ walkCalls pkts, isSent op = false := by
+  induction pkts with
+  | nil => simp [walkCalls]
+  | cons p pkts ih =>
+    cases p with
+    | processed l =>
+      intro op hop
+      simp only [walkCalls, List.mem_cons] at hop
+      rcases hop with rfl | hop
+      · rfl
+      · exact ih op hop
+    | skipped => simpa [walkCalls] using ih
+    | stop => simp [walkCalls]
+
+theorem handleOnePacketCalls_nosend (size : Nat) (pkts : List Pkt) :
+    ∀ op ∈ handleOnePacketCalls size pkts, isSent op = false := by
+  intro op hop
+  simp only [handleOnePacketCalls, List.mem_cons] at hop
+  rcases hop with rfl | hop
+  · rfl
+  · exact walkCalls_nosend pkts op hop
+
+/-- the walk over the coalesced packets never touches the byte counters -/
+theorem walkCalls_counters (pkts : List Pkt) (h : H) :
+    ((walkCalls pkts).foldl H.apply h).bytesReceived = h.bytesReceived ∧
+    ((walkCalls pkts).foldl H.apply h).bytesSent = h.bytesSent := by
+  induction pkts generalizing h with
+  | nil => simp [walkCalls]
+  | cons p pkts ih =>
+    cases p with
+    | processed l =>
+      simp only [walkCalls, List.foldl_cons, H.apply]
+      have := ih (h.receivedPacket l)
+      have hc := receivedPacket_counts h l
+      exact ⟨this.1.trans hc.2.1, this.2.trans hc.1⟩
+    | skipped => simpa [walkCalls] using ih h
+    | stop => simp [walkCalls]
+
+/-- and contributes no arrival to the wire trace -/
+theorem walkCalls_wire_no_inn (pkts : List Pkt) (h : H) :
+    ∀ ev ∈ wireOfCalls h (walkCalls pkts), ev = WireEv.validate := by
+  induction pkts generalizing h with
+  | nil => simp [walkCalls, wireOfCalls]
+  | cons p pkts ih =>
+    cases p with
+    | processed l =>
+      intro ev hev
+      simp only [walkCalls, wireOfCalls, List.mem_append] at hev
+      rcases hev with hev | hev
+      · simp only [opWire] at hev
+        split at hev <;> simp_all
+      · exact ih _ ev hev
+    | skipped => simpa [walkCalls] using ih h
+    | stop => simp [walkCalls, wireOfCalls]
+
+/-! ### sending never changes the received-bytes counter -/
+
+theorem sendPacketsConfirmed_bytesReceived (rest : List Env) : ∀ (pack : List Nat) (h : H),
+    (sendPacketsConfirmed h pack rest).1.bytesReceived = h.bytesReceived := by
+  induction rest with
+  | nil =>
+    intro pack h; unfold sendPacketsConfirmed
+    by_cases hk : pack = [] <;> simp [hk]
+  | cons e rest ih =>
+    intro pack h
+    unfold sendPacketsConfirmed
+    by_cases hk : pack = []
+    · simp [hk]
+    · by_cases hm : (h.sentDatagram pack).sendMode e.wants = .any
+      · simp [hk, hm, ih]
+      · simp [hk, hm]
+
+theorem triggerSending_bytesReceived (confirmed : Bool) (envs : List Env) : ∀ (h : H),
+    (triggerSending confirmed h envs).1.bytesReceived = h.bytesReceived := by
+  induction envs with
+  | nil => intro h; simp [triggerSending]
+  | cons e rest ih =>
+    intro h
+    unfold triggerSending
+    by_cases hk : e.pack = []
+    · cases hm : h.sendMode e.wants <;> simp [hk] <;>
+        (by_cases hc : confirmed = true <;> simp [hc, sendPacketsConfirmed_bytesReceived])
+    · cases hm : h.sendMode e.wants <;> simp [hk, ih]
+      by_cases hc : confirmed = true
+      · simp [hc, sendPacketsConfirmed_bytesReceived]
+      · simp [hc]; cases rest <;> simp
+
 /-! ### the loop's wire trace is the wire trace of its calls, unless it closes locally -/
 
 structure LoopInv (pers : Persp) (cav : Bool) (L : LoopSt) : Prop where
@@ -155,6 +258,11 @@ theorem loop_refines (pers : Persp) (cav : Bool) (lops : List LoopOp) :
         rw [← inv.h, ← r.1, foldl_h, hrun]
       · simp only [LoopSt.step]; rw [run_append]; exact r.2 inv.disc
     | closeLocal size => exact ⟨inv.h, inv.disc⟩
+    | datagram size pkts =>
+      constructor
+      · simp [LoopSt.step, List.foldl_append, ← inv.h]
+      · simp only [LoopSt.step]; rw [run_append, foldl_nosend_disciplined _ _ (handleOnePacketCalls_nosend size pkts)]
+        exact inv.disc
 
 theorem loop_wire_no_close (pers : Persp) (cav : Bool) (lops : List LoopOp)
     (hc : ∀ op ∈ lops, op.isClose = false) :
@@ -188,5 +296,9 @@ theorem loop_wire_no_close (pers : Persp) (cav : Bool) (lops : List LoopOp)
         rw [← hh, ← r.1, foldl_h]
       · simp [LoopSt.step, wireOfCalls_append, ← hh, ← hw]
     | closeLocal size => simp [LoopOp.isClose] at hop
+    | datagram size pkts =>
+      apply ih hrest
+      · simp [LoopSt.step, List.foldl_append, ← hh]
+      · simp [LoopSt.step, wireOfCalls_append, ← hh, ← hw]
 
 end Uquic.Proofs.Amp
